@@ -189,6 +189,32 @@ func runWsQueueScenario(c *Ctx, l transport.Listener, addr string, gates *wslGat
 		c.Class(fmt.Sprintf("ws listener %s closed=%v handler-mode=%v %s", f[0], closed, handlerMode, shape), true)
 		c.T.Line("ws listener "+f[0], "m.wsl "+op, obs)
 	}
+	// the close of a connection reaches its client through the kernel, after every goroutine has parked: when the
+	// listener is already closed, give the client's read loop up to half a second to see it before observing
+	// (seen on a machine running a dozen other checks: two of 300 scenarios observed a moment too early)
+	waitShut := func(id int) {
+		if !closed {
+			return
+		}
+		for i := 0; i < 250 && !clients[id].isClosed(); i++ {
+			time.Sleep(2 * time.Millisecond)
+		}
+	}
+	// the same after Close, for the connections that were queued (upgraded, not handed out)
+	waitQueuedShut := func() {
+		for i := 0; i < 250; i++ {
+			open := false
+			for _, id := range order {
+				if !upgrading[id] && !handed[id] && !clients[id].isClosed() {
+					open = true
+				}
+			}
+			if !open {
+				return
+			}
+			time.Sleep(2 * time.Millisecond)
+		}
+	}
 	nextConn, nextCall := 1, 1
 	steps := 5 + c.R.Intn(12)
 	for st := 0; st < steps; st++ {
@@ -254,6 +280,7 @@ func runWsQueueScenario(c *Ctx, l transport.Listener, addr string, gates *wslGat
 			id := ups[c.R.Intn(len(ups))]
 			delete(upgrading, id)
 			close(gates.gate(clients[id].local))
+			waitShut(id)
 			line(fmt.Sprintf("finish %d", id), "")
 		case k < 9 && parked == 0 && !closed:
 			call := nextCall
@@ -276,6 +303,7 @@ func runWsQueueScenario(c *Ctx, l transport.Listener, addr string, gates *wslGat
 		default:
 			err := l.Close()
 			closed = true
+			waitQueuedShut()
 			pre := "res:ok"
 			if err != nil {
 				pre = "res:closed"
@@ -286,6 +314,7 @@ func runWsQueueScenario(c *Ctx, l transport.Listener, addr string, gates *wslGat
 	if !closed {
 		err := l.Close()
 		closed = true
+		waitQueuedShut()
 		pre := "res:ok"
 		if err != nil {
 			pre = "res:closed"
@@ -297,6 +326,7 @@ func runWsQueueScenario(c *Ctx, l transport.Listener, addr string, gates *wslGat
 		if upgrading[id] {
 			delete(upgrading, id)
 			close(gates.gate(clients[id].local))
+			waitShut(id)
 			line(fmt.Sprintf("finish %d", id), "")
 		}
 	}
